@@ -180,7 +180,7 @@ PROPS = {
     },
     "C16": {
         "modules": ["SxVerif.Props.C16"],
-        "components": ["exitdelay", "e2edelay", "recv", "pipeline"],
+        "components": ["exitdelay", "e2edelay", "recv", "pipeline", "e2eapp"],
         "trusted_base": [
             "modelled, not verified: time as a logical clock (`tick`), `time.After(d)` as a timer whose receive is enabled once clock >= creation time + d; Go channel / select / context semantics as in Model/Engine.lean (see C08)",
             "the packet receiver is abstracted to an external producer that reads the next arrived frame only while the derived ctx is live and then calls Put (receiver loop polls ctx at the loop head; C03/C06/C20 own the frame side)",
@@ -252,7 +252,7 @@ PROPS = {
     },
     "C13": {
         "modules": ["SxVerif.Props.C13"],
-        "components": ["gen", "engine", "pipeline", "arpcache", "iface"],
+        "components": ["gen", "engine", "pipeline", "arpcache", "iface", "e2eapp"],
         "trusted_base": [
             "modelled, not verified: bufio.Scanner line splitting (64 KiB limit) and the easyjson decoder of IPPort as a line classifier (badJson | tooLong | entry(ip?, port)); net.ParseIP as an abstract outcome; cidranger as list membership",
         ],
